@@ -50,6 +50,10 @@ func main() {
 		childMain(d)
 		return
 	}
+	if f := os.Getenv("C08_TRIAGE"); f != "" {
+		triageMain(f)
+		return
+	}
 	vk.Run("C08", "exploration", run)
 }
 
@@ -190,8 +194,8 @@ func run(t *vk.T) {
 		t.Broken("%s", r.failed)
 	}
 
-	// scale probes (thorough tier): a handful of fixed large inputs, one entry point each
-	if !t.Quick() && (os.Getenv("C08_CASES") == "" || os.Getenv("C08_PROBES") != "") {
+	// scale probes: a handful of fixed large inputs, one entry point each
+	if os.Getenv("C08_CASES") == "" || os.Getenv("C08_PROBES") != "" {
 		ps := scaleProbes(nCases)
 		var pw sync.WaitGroup
 		for i := range ps {
